@@ -439,6 +439,33 @@ def tag_follow_allowance(h, want_closure, adv_values):
     return out
 
 
+def closure_cut_at(u, tips, shallow):
+    """closure(tips) in a shallow repository: the parents of the commits listed in its shallow file are not part of it."""
+    from ..gen.repos import parse_object_refs
+
+    seen = set()
+    todo = list(tips)
+    while todo:
+        i = todo.pop()
+        if i in seen:
+            continue
+        seen.add(i)
+        t, data = u.objs[i]
+        refs = parse_object_refs(t, data)
+        if t == b"commit" and i in shallow:
+            refs = refs[:1]  # the tree only
+        todo.extend(refs)
+    return seen
+
+
+def _read_shallow(rpath):
+    try:
+        with open(os.path.join(rpath, "shallow"), "rb") as f:
+            return set(f.read().split())
+    except FileNotFoundError:
+        return set()
+
+
 def required_with_depth(u, tips, depth):
     """Objects a depth-limited fetch of tips must deliver: tag chains, commits within `depth` of a tip, their trees."""
     req = set()
@@ -869,7 +896,13 @@ def _one_step(ctx, env, st, case, n, step, check):
         ctx.fail(f"C05:{where}:receiver-unreadable-by-git", f"{where}: git cat-file --batch-all-objects fails on the receiver: {err[:300]!r}", check, sub)
         return False
     tips = [t for t in tips if t in u.objs]
-    required = required_with_depth(u, tips, depth) if depth else u.closure(tips)
+    was_shallow = getattr(st, "shallow", False)
+    if was_shallow and not depth:
+        # an ordinary transfer into a receiver that is shallow already: complete up to its (possibly updated) boundary
+        labels.add("into-shallow-receiver")
+        required = closure_cut_at(u, tips, _read_shallow(rpath))
+    else:
+        required = required_with_depth(u, tips, depth) if depth else u.closure(tips)
     miss = required - set(after)
     if miss:
         ctx.fail(f"C05:{where}:missing-objects:{types_of(u, miss)}",
@@ -920,12 +953,14 @@ def _one_step(ctx, env, st, case, n, step, check):
                      f"were set: {(out + err)[:400]!r}", check, sub)
     st.objs = after
     st.refs.update(new_refs)
+    if depth:
+        st.shallow = True
     nt = bool(feats & NONTRIVIAL_FEATURES) and "nothing-missing" not in feats and ("recv-empty" not in feats or depth)
     ctx.case(key, nontrivial=nt, labels=sorted(labels | {"f:" + f for f in feats} | (h.shape_labels() if n == 0 else set())
                                                | {"sender:" + case["sender"]["layout"], "recv:" + case["recv"]["layout"]}),
              sample=dict(check="xfer", op=op, tr=tr, opts=o, ncommits=len(h.commit_ids), refs=[k.decode() for k in names], wants=step.get("wants"),
                          recv_tips=case["recv"]["tips"], feats=sorted(feats)) if nt else None)
-    return not depth
+    return True
 
 
 class _XferFailed(Exception):
@@ -1264,6 +1299,11 @@ def _strategies():
         steps = [draw(step(True))]
         if steps[0]["op"] != "clone" and not steps[0]["o"].get("depth") and draw(st.booleans()):
             steps.append(draw(step(False)))
+        elif steps[0]["o"].get("depth") and draw(st.integers(0, 9)) < 7:
+            # an ordinary fetch into the receiver the depth-limited transfer has just made shallow
+            nxt = draw(step(False))
+            if nxt["op"] == "fetch":
+                steps.append(nxt)
         r = draw(recv)
         if steps[0]["o"].get("depth"):
             r = dict(r, tips=[], tags=[])
@@ -1394,6 +1434,20 @@ def directed_cases():
                 for tr in trs:
                     o = {"proto": 0, "tagmode": 0, "thin": True} if tr in CGIT else {}
                     out.append(("xfer", {"hist": hist, "sender": sender, "recv": recv, "steps": [{"op": op, "tr": tr, "wants": [0, 1], "o": o}], "directed": name}))
+    # an ordinary fetch into a receiver that is shallow already, where the new history reaches below the boundary by a
+    # side path: c1 <- c2 <- c3 (fetched at depth 1), x (parent c2), m = merge(c3, x) fetched without depth.  The sender
+    # may assume nothing about the ancestors of the shallow have.
+    commits = [{"parents": [], "ops": [("base", 0)], "t": 0}, {"parents": [0], "ops": [("bump", 0, 1)], "t": 10}, {"parents": [1], "ops": [("bump", 2, 1)], "t": 20},
+               {"parents": [1], "ops": [("set", 5, 2, 1, False)], "t": 25}, {"parents": [2, 3], "ops": [("take", 1, 5)], "t": 30}]
+    hist = {"commits": commits, "tags": [], "refs": [(b"refs/heads/merged", ("c", 4)), (b"refs/heads/old", ("c", 2))], "head": b"refs/heads/old"}
+    recv = {"tips": [], "how": ["heads"] * 3, "tags": [], "own": 0, "layout": "loose", "packed_refs": False, "cgraph": False}
+    for layout in ("loose", "gitpack"):
+        sender = {"layout": layout, "packed_refs": False, "cgraph": False}
+        for tr1 in ("local", "tcp"):
+            for tr2 in ("local", "tcp", "sub", "gitd", "http", "cgit", "cgith"):
+                o2 = {"proto": 0, "tagmode": 1, "thin": True} if tr2 in CGIT else {"proto": 2} if tr2 == "gitd" and layout == "gitpack" else {}
+                out.append(("xfer", {"hist": hist, "sender": sender, "recv": recv, "directed": "shallow-then-side-path",
+                                     "steps": [{"op": "fetch", "tr": tr1, "wants": [1], "o": {"depth": 1}}, {"op": "fetch", "tr": tr2, "wants": [0], "o": o2}]}))
     return out
 
 
